@@ -1714,7 +1714,23 @@ func (h *Handler) serveStatus(w http.ResponseWriter, r *http.Request) {
 	h.writeHeader(w, http.StatusNoContent)
 }
 
-func (h *Handler) failPoint(w http.ResponseWriter, r *http.Request) {
+func (h *Handler) failPoint(w http.ResponseWriter, r *http.Request, user meta2.User) {
+	// Check authorization.
+	if h.Config.AuthEnabled {
+		if user == nil {
+			// no users in system
+			h.httpError(w, "error authorizing query: create admin user first or disable authentication", http.StatusForbidden)
+			h.Logger.Error("error authorizing query: create admin user first or disable authentication")
+			return
+		}
+		if !user.AuthorizeUnrestricted() {
+			h.httpError(w, "error authorizing, requires admin privilege only", http.StatusForbidden)
+			h.Logger.Error("exec error! authorizing failpoint", zap.String("userID", user.ID()))
+			return
+		}
+		h.Logger.Info("execute failpoint by admin user", zap.String("userID", user.ID()))
+	}
+
 	point := r.URL.Query().Get("point")
 	flag := r.URL.Query().Get("flag")
 	var err error
